@@ -171,6 +171,9 @@ FUNC_SYNONYM = {
 class Normaliser:
     """Normalises scalar expressions of one function; locals are inlined through `env`."""
 
+    #: qualified name of a record class (NamedTuple / dataclass that only bundles values) -> its fields in order; set by util.normaliser
+    records: dict[str, list[str]] = {}
+
     def __init__(self, qualify: Callable[[str], str], env: dict[str, ast.expr] | None = None,
                  self_name: str | None = None, inliner: "Callable[[Normaliser, ast.Call], Rat | None] | None" = None) -> None:
         self.qualify = qualify
@@ -225,13 +228,24 @@ class Normaliser:
                 return Rat(p_atom(self.qualify(d)))
             if e.attr == "T":
                 return Rat(p_atom(f"T({self.rat(e.value)})"))
-            return Rat(p_atom(f"{self.rat(e.value)}.{e.attr}"))
+            base = self.rat(e.value)
+            if e.attr in getattr(base, "fields", {}):
+                return base.fields[e.attr]  # type: ignore[attr-defined]
+            return Rat(p_atom(f"{base}.{e.attr}"))
         if isinstance(e, ast.Subscript):
-            return Rat(p_atom(f"{self.rat(e.value)}[{self._slice(e.slice)}]"))
+            base = self.rat(e.value)
+            elts = getattr(base, "elts", None)
+            if elts is not None and isinstance(e.slice, ast.Constant) and isinstance(e.slice.value, int) and not isinstance(e.slice.value, bool) and -len(elts) <= e.slice.value < len(elts):
+                return elts[e.slice.value]  # `(a, b)[0]` - also behind a local or an inlined helper that returns a tuple display
+            return Rat(p_atom(f"{base}[{self._slice(e.slice)}]"))
         if isinstance(e, ast.IfExp):
             return Rat(p_atom(f"ite({self.canon(e.test)},{self.rat(e.body)},{self.rat(e.orelse)})"))
         if isinstance(e, (ast.Tuple, ast.List)):
-            return Rat(p_atom("(" + ",".join(str(self.rat(x)) for x in e.elts) + ")"))
+            parts = [self.rat(x) for x in e.elts]
+            r = Rat(p_atom("(" + ",".join(str(x) for x in parts) + ")"))
+            if not any(isinstance(x, ast.Starred) for x in e.elts):
+                r.elts = parts  # type: ignore[attr-defined]
+            return r
         if isinstance(e, ast.Compare):
             return Rat(p_atom(self.canon(e)))
         return Rat(p_atom(ast.unparse(e)))
@@ -329,6 +343,16 @@ class Normaliser:
                 name = f"{self.rat(fn.value)}.{fn.attr}"
         else:
             name = ast.unparse(fn)
+        if name in self.records and not any(isinstance(a, ast.Starred) for a in args) and len(args) <= len(self.records[name]):
+            # constructor of a record: remember which value sits in which field, so that `Rec(..).f` / `Rec(..)[i]` read as that value
+            fields = self.records[name]
+            vals = {f_: self.rat(a) for f_, a in zip(fields, args)}
+            vals.update({k: self.rat(v) for k, v in kws.items() if k in fields})
+            r = Rat(p_atom(f"{name}(" + ",".join(f"{k}={vals[k]}" for k in fields if k in vals) + ")"))
+            r.fields = vals  # type: ignore[attr-defined]
+            if len(vals) == len(fields):
+                r.elts = [vals[k] for k in fields]  # type: ignore[attr-defined]
+            return r
         if name in ("id",) and len(args) == 1:
             return self.rat(args[0])
         if name == "cast" and len(args) == 2:
